@@ -8,12 +8,13 @@ def check(tree, rep, tier='quick', seed=0):
                        'solve() over the input tracker\'s unmet dependencies with the registered waiters of that same input (K10, K17); the input '
                        'tracker is fed only by the MissingInput handler with the exception\'s own name and the attempted line (K2, K17); '
                        'MissingInput is raised only by InputStore.__getitem__ after provides() was false (K11, K17); the answer lands in the '
-                       'configuration object that write() serialises and the CLI writes the very store the solver mutated (K8, K18).')
-    rep.rule_text = 'obligation = one rule instance (K2 K8 K10 K11 K17 K18) on one call site / statement'
+                       'configuration object that write() serialises and the CLI writes the very store the solver mutated (K8, K18); the prompt text describes each waiting line with values computed from that line alone (K29).')
+    rep.rule_text = 'obligation = one rule instance (K2 K8 K10 K11 K17 K18 K29) on one call site / statement'
     rep.exhaustive = True
     rep.assumptions = ['NOT decided: "re-running asks nothing and gives the identical solution" - a two-run history over ConfigParser\'s text round trip (white space, case); only the % part is covered (K22c in C14)']
     core = get_core(tree)
     R.k17_prompt_demand(core, rep)
+    R.k29_prompt_quotes_the_waiters(core, rep)
     R.k10_refusal(core, rep)
     R.k2_signal_discipline(core, rep)
     R.k8_input_store_writes(core, rep)
